@@ -76,16 +76,11 @@ Ltac get_bounds Hb B1 B2 :=
 Theorem subseq_meets_spec : forall c, c_fn c = FSubseq -> in_domain c = true -> m_call c = s_call c.
 Proof.
   intros c F Hd. assert (Hb := Hd). split_dom Hb D2 D1 D0 D. get_bounds Hb B1 B2.
-  rewrite F in D. cbn in D.
   unfold m_call, s_call, m_subseq. rewrite F. fold (s_start c).
-  unfold s_end in *.
-  destruct (c_seq c) eqn:S; try discriminate D; cbn [elems] in *;
-    destruct (c_end c) as [e|];
-    (destruct (Nat.ltb_spec (length l) (s_start c)); [lia|]);
-    try (destruct (Nat.ltb_spec (length l) e); [lia|]);
-    try (destruct (Nat.ltb_spec (length l) (length l)); [lia|]); cbn [orb];
-    try (destruct (Nat.ltb_spec e (s_start c)); [lia|]);
-    try (destruct (Nat.ltb_spec (length l) (s_start c)); [lia|]); reflexivity.
+  change (match c_end c with Some n => n | None => length (elems (c_seq c)) end) with (s_end c (elems (c_seq c))).
+  destruct (Nat.ltb_spec (length (elems (c_seq c))) (s_start c)); [lia|].
+  destruct (Nat.ltb_spec (length (elems (c_seq c))) (s_end c (elems (c_seq c)))); [lia|]. cbn [orb].
+  destruct (Nat.ltb_spec (s_end c (elems (c_seq c))) (s_start c)); [lia|reflexivity].
 Qed.
 
 Theorem fill_meets_spec : forall c, c_fn c = FFill -> in_domain c = true -> m_call c = s_call c.
@@ -174,14 +169,8 @@ Definition is_quant_fn (f : fname) : bool := match f with FEvery | FSome | FNota
 Theorem quant_meets_spec : forall c, is_quant_fn (c_fn c) = true -> in_domain c = true -> m_call c = s_call c.
 Proof.
   intros c Hf Hd. assert (Hb := Hd). split_dom Hb D2 D1 D0 D.
-  assert (not_nil (c_seq c) = true /\ ((c_nseq c =? 1)%nat || not_nil (c_seq2 c)) = true) as [N1 N2].
-  { destruct (c_fn c); try discriminate Hf; cbn in D; repeat (apply andb_true_iff in D as [D ?]); auto. }
-  assert (quant_vals c = QVals (s_quant_vals c)) as Hq.
-  { unfold quant_vals, s_quant_vals. rewrite test2_s_test2.
-    destruct (c_nseq c) as [|[|n]]; cbn in N2.
-    - destruct (c_seq c); try discriminate N1; destruct (c_seq2 c); try discriminate N2; reflexivity.
-    - destruct (c_seq c); try discriminate N1; reflexivity.
-    - destruct (c_seq c); try discriminate N1; destruct (c_seq2 c); try discriminate N2; reflexivity. }
+  assert (quant_vals c = s_quant_vals c) as Hq.
+  { unfold quant_vals, s_quant_vals. now rewrite test2_s_test2. }
   unfold m_call, s_call, m_quant. rewrite Hq.
   destruct (c_fn c) eqn:F; try discriminate Hf; try reflexivity.
   (* some *)
@@ -201,9 +190,7 @@ Proof.
   intros c Hf Hd. assert (Hb := Hd). split_dom Hb D2 D1 D0 D.
   assert (map_vals c = s_map_vals c) as Hv by reflexivity.
   unfold m_call, s_call. destruct Hf as [F|F]; rewrite F in *; cbn in D.
-  - apply andb_true_iff in D as [N1 N2]. unfold m_map. rewrite Hv.
-    destruct (c_seq c); try discriminate N1; destruct (c_nseq c) as [|[|n]]; cbn in N2; try reflexivity;
-      destruct (c_seq2 c); try discriminate N2; reflexivity.
+  - unfold m_map. now rewrite Hv.
   - apply andb_true_iff in D as [L1 N2]. unfold m_mapcar. rewrite Hv.
     destruct (c_seq c); try discriminate L1; destruct (c_nseq c) as [|[|n]]; cbn in N2; try reflexivity;
       destruct (c_seq2 c); try discriminate N2; reflexivity.
@@ -217,7 +204,7 @@ Theorem reduce_meets_spec : forall c, c_fn c = FReduce -> in_domain c = true ->
   exists r, m_call c = Some r /\ s_call c = Some r.
 Proof.
   intros c F Hd. assert (Hb := Hd). split_dom Hb D2 D1 D0 D. get_bounds Hb B1 B2.
-  rewrite F in D. cbn in D. apply andb_true_iff in D as [D G3]. apply andb_true_iff in D as [N G2].
+  rewrite F in D. cbn in D. apply andb_true_iff in D as [G2 G3].
   unfold m_call, s_call. rewrite F. unfold m_reduce, s_reduce.
   assert (m_reduce_list c (elems (c_seq c)) = m_reduce_list c (elems (c_seq c))) as _ by reflexivity.
   set (l := elems (c_seq c)) in *.
@@ -248,16 +235,14 @@ Proof.
       rewrite Heq, Nat.eqb_refl in G3. cbn in G3. destruct (c_init c); [|discriminate]. eauto.
     - destruct (c_init c), (c_from_end c); eauto. }
   exists r. split; [|exact R2].
-  subst l. destruct (c_seq c) eqn:S; try discriminate N; cbn [elems] in *; f_equal; exact R1.
+  subst l. f_equal; exact R1.
 Qed.
 
 (* ---- merge -------------------------------------------------------------------------------------------------- *)
 Theorem merge_meets_spec : forall c, c_fn c = FMerge -> in_domain c = true -> m_call c = s_call c.
 Proof.
   intros c F Hd. assert (Hb := Hd). split_dom Hb D2 D1 D0 D.
-  rewrite F in D. cbn in D. apply andb_true_iff in D as [D G]. apply andb_true_iff in D as [D N2].
-  apply andb_true_iff in D as [T N1].
+  rewrite F in D. cbn in D. apply andb_true_iff in D as [T G].
   unfold m_call, s_call, m_merge. rewrite F.
-  rewrite <- (merge_no_ties _ _ _ _ T G).
-  destruct (c_seq c); try discriminate N1; destruct (c_seq2 c); try discriminate N2; reflexivity.
+  rewrite <- (merge_no_ties _ _ _ _ T G). reflexivity.
 Qed.
